@@ -214,6 +214,20 @@ CLAIMED['C18'] = dict(
          'NaN / -inf), not by a theorem. Seven defects found and repaired by fix: commits.'),
    note=BASE_TB + ' harness/translate/warpers.py regenerates coq/Gen/Warpers.v (log-warper formulas translated expression by expression; half-rank and infeasible statements compared textually). scipy.stats.norm.ppf and np.sqrt are parameters of the half-rank theorem. Distinct labels closer than 1e-7 of the range may merge in floating point; the inverse is not checked above 1e100.',
    technique='Rocq proof (order theory over Q with setoid equality; real analysis for the log warper) + translator + vm_compute correspondence with tolerance + ranking monitor', design='5/C18')
+CLAIMED['C19'] = dict(
+   text=('Theorems (all closed under the global context), for ANY score function, ANY strategy output and ANY number of steps and batch '
+         'sizes: exactly `count` candidates come back; each carries the score of exactly the returned (masked) features or is an untouched '
+         'all-zero filler with the lowest reward; the padded columns of every returned row are zero (C19_count_scores_and_padding); the kept '
+         'rewards are the `count` best of everything scored so far (C19_best_of_everything_evaluated: truncating the kept list loses nothing), '
+         'the first one is the maximum, and every returned candidate was proposed by the strategy (C19_candidates_were_evaluated). '
+         'C19_source_as_modelled ties the model to the data flow of today\'s one-step function (masked features are what is scored, fed back '
+         'and kept; NaN rewards become -inf; zero / -inf initial results; argpartition top-k; eagle projection clips to [0,1]). REFUTED: "never '
+         'worse than the best prior point" - prior points are not candidates (known finding C19-prior-points-are-not-candidates). PARTIAL: '
+         'the strategies themselves (eagle mutation / perturbation, categorical sampling), determinism of jax PRNG and the equivalence of '
+         'fori_loop with the observed python loop are decided by the monitor (in-bounds, valid categories, re-scoring, same seed twice, '
+         'fori vs python loop), not by a theorem. Two defects found and repaired by fix: commits.'),
+   note=BASE_TB + ' harness/translate/optloop.py (Python-ast data-flow, fail-closed) regenerates coq/Gen/OptLoop.v. Rewards enter the model through their order only (dense ranks; NaN / -inf lowest); argpartition\'s unspecified order and tie-breaking are abstracted by comparing multisets of rewards.',
+   technique='Rocq proof (insertion-sort / truncation commutation lemma, induction over steps) + translator + vm_compute correspondence on rank-encoded evaluation logs + re-scoring monitor', design='5/C19')
 ALL = ['C%02d' % i for i in range(1, 21)]
 m = {
  'version': 1,
